@@ -258,10 +258,14 @@ def run(ctx: Ctx, tier: str) -> Result:
     GP = "deep.api.auth.AuthProvider.get_provider"
     mt = Table(ctx, md)
     fld_ret = {norm(r.result) for r in mt.rows if r.kind == "return" and r.result is not None}
-    need(len(fld_ret) == 1 and list(fld_ret)[0].lstrip("@").startswith("self."), "metadata() does not return one cache field: %s" % sorted(fld_ret))
+    if not (len(fld_ret) == 1 and list(fld_ret)[0].lstrip("@").startswith("self.")):
+        res.fail(Finding("C08.AUTH", md.qname, "<return self._metadata>", md.loc(), "metadata() does not hand out the metadata it built from the auth provider (returns %s)" % sorted(fld_ret)))
+        return res
     fld = list(fld_ret)[0].split(".", 1)[1]
     stores = [(sf, v) for sf, v, _ in t.field_stores(gs, fld) if sf.name != "__init__" and v is not None]
-    need(stores, "GRPCService.%s is never filled" % fld)
+    if not stores:
+        res.fail(Finding("C08.AUTH", md.qname, "<self.%s = provider.provide()>" % fld, md.loc(), "the metadata handed to every request is never built from the auth provider"))
+        return res
     alts = set()
     def split(n):
         if isinstance(n, ast.IfExp):
